@@ -27,7 +27,7 @@ from .qeval import ONE, ZERO, Q
 
 SPEC = core.SPEC / "features"
 REFUSALS = ("ValueError", "NotImplementedError", "ModelError", "ModelSyntaxError")
-KINDS = ["reread", "addcov", "rmcov", "allometry", "addiiv", "rmiiv", "addiov", "rmiov", "transform", "seterr", "rmerr",
+KINDS = ["reread", "elim", "addcov", "rmcov", "allometry", "addiiv", "rmiiv", "addiov", "rmiov", "transform", "seterr", "rmerr",
          "power", "iivruv", "timevar", "weighted", "abs", "transit"]
 
 _MODELS = {}
@@ -68,7 +68,10 @@ def start_model(name):
         elif name == "pheno2dv":
             from pharmpy.modeling import add_metabolite
 
-            _MODELS[name] = add_metabolite(load_example_model("pheno"))
+            from pharmpy.modeling import set_additive_error_model
+
+            # both dependent variables start with an additive error model (world pheno2dv: err0 = "add")
+            _MODELS[name] = set_additive_error_model(set_additive_error_model(add_metabolite(load_example_model("pheno"))), dv=2)
         elif name == "phenoexp":
             from pharmpy.model import Model
 
@@ -338,7 +341,7 @@ def do_allometry(m1, act, cx):
     new = _new_params(m1, m2)
     targets = [n[len("ALLO_"):] for n in new]
     pts = []
-    scaled = targets if targets else [p for p in ("CL", "VC", "V") if p in P.assigned_names(m1)]
+    scaled = list(targets) + [p for p in ("CL", "VC", "V") if p in P.assigned_names(m1) and p not in targets]
     for p in scaled:
         tname = "ALLO_" + p
         for x in (Q(z), Q(2 * z), Q(Fraction(z, 2)), Q(3 * z)):
@@ -347,7 +350,10 @@ def do_allometry(m1, act, cx):
                 env = _be([m1, m2], cx.salt, "small", "zero", over)
                 v1, _ = P.run(m1, env)
                 v2, _ = P.run(m2, env)
-                pts.append({"p": p, "x": qj(x), "z": qj(Q(z)), "t": qj(Q(t)), "b": qj(v1.get(p)), "a": qj(v2.get(p))})
+                # a candidate that got no exponent carries no formula of its own (t undefined: skipped); whether it
+                # had to be scaled is decided by the machine (AlloVolumeTargets must be among e.targets)
+                pts.append({"p": p, "x": qj(x), "z": qj(Q(z)), "t": qj(Q(t)) if tname in new else list(P.UNDEF),
+                            "b": qj(v1.get(p)), "a": qj(v2.get(p))})
         # the exponent at its own (fractional) probe value: only X = Z is in Q
         env = _be([m1, m2], cx.salt, "small", "zero", {var: Q(z)})
         v1, _ = P.run(m1, env)
@@ -394,6 +400,8 @@ def do_seterr(m1, act, cx):
     dv = int(act["c"]) if act["c"] else None       # the dv argument (DVID) on models with several dependent variables
     y = _yname(m1) if dv is None else [str(k) for k, val in m1.dependent_variables.items() if val == dv][0]
     kw = {} if dv is None else {"dv": dv}
+    if trans == "nozp":     # set_proportional_error_model(..., zero_protection=False)
+        kw["zero_protection"] = False
     m2 = fn(m1, data_trans=f"log({y})", **kw) if trans == "log" else fn(m1, **kw)
     # the epsilons of THIS dependent variable: e1 = proportional or only one, e2 = additive one of a combined model
     mine = [n for n in _eps_names(m2) if n in P.upstream(m2, {y})]
@@ -591,6 +599,15 @@ def do_transit(m1, act, cx):
     return _do_abs(m1, set_transit_compartments(m1, int(act["x"])), cx)
 
 
+def do_elim(m1, act, cx):
+    """elimination setters: generator steps (their own contract is C08's)"""
+    from pharmpy.modeling import (set_michaelis_menten_elimination, set_mixed_mm_fo_elimination,
+                                  set_zero_order_elimination)
+
+    fn = {"MM": set_michaelis_menten_elimination, "ZO": set_zero_order_elimination, "MIX": set_mixed_mm_fo_elimination}[act["x"]]
+    return fn(m1), {}
+
+
 def do_reread(m1, act, cx):
     """write the model code and read it back (a generator step: C02 judges the round trip)"""
     from pharmpy.modeling import read_model_from_string
@@ -602,7 +619,7 @@ def do_reread(m1, act, cx):
 
 
 ACTIONS = {
-    "reread": do_reread,
+    "reread": do_reread, "elim": do_elim,
     "addcov": do_addcov, "rmcov": do_rmcov, "allometry": do_allometry, "addiiv": do_addiiv, "rmiiv": do_rmiiv,
     "addiov": do_addiov, "rmiov": do_rmiov, "transform": do_transform, "seterr": do_seterr, "rmerr": do_rmerr,
     "power": do_power, "iivruv": do_iivruv, "timevar": do_timevar, "weighted": do_weighted, "abs": do_abs,
@@ -653,6 +670,7 @@ def _context(case, i):
     prev = h[i - 1] if i >= 1 else {"k": "", "p": "", "c": "", "x": "", "y": ""}
     return {"prev": prev, "prev_token": f"{prev['k']}:{prev['x']}" if i >= 1 else "",
             "after_rmiov": any(a["k"] == "rmiov" for a in h[:i]),
+            "after_prop_log": any(a["k"] == "seterr" and a["x"] == "prop" and a["y"] == "log" for a in h[:i]),
             "mat_extended": any(a["p"] == "MAT" and a["k"] in ("addcov", "addiov", "transform", "addiiv") for a in h[:i])}
 
 
@@ -849,6 +867,8 @@ def _must(c):
     if c["model"] == "phenoexp" and ks in (["addiiv", "rmiiv"], ["addiiv", "rmiiv", "addiiv"]) and h[0]["p"] == "CL" and h[1]["p"] == "CL":
         return len(h) == 2 or h[2]["p"] == "CL"
     if c["model"] == "pheno2dv":     # every error model on one dependent variable, then on the other / the same one
+        return True
+    if ks == ["elim", "allometry"]:   # allometry after every elimination setter: the volume must still be scaled
         return True
     if ks in (["transit", "transit"], ["transit", "reread", "transit"], ["reread", "transit", "transit"]):
         ns = [a["x"] for a in h if a["k"] == "transit"]
